@@ -15,6 +15,7 @@ CONSTANTS
   OrderedIteration = TRUE
   SummaryStateless = TRUE
   WeightsRebuilt = TRUE
+  FeedCopied = TRUE
 INVARIANT Functional
 INVARIANT SeedDerived
 CHECK_DEADLOCK FALSE
